@@ -144,6 +144,15 @@ func EdgeFacts(cond ssa.Value, branch bool) []Fact {
 			op = negate(op)
 		}
 		out = append(out, Fact{Kind: FCmp, Op: op, X: x.X, Y: x.Y})
+		// len(s) == 0 (or <= 0) says s == "" for a string s; != 0 and > 0 say s != ""
+		if s := lenOfString(x.X); s != nil && isZeroInt(x.Y) {
+			switch op {
+			case token.EQL, token.LEQ:
+				out = append(out, Fact{Kind: FCmp, Op: token.EQL, X: s, Y: ssa.NewConst(constant.MakeString(""), s.Type())})
+			case token.NEQ, token.GTR:
+				out = append(out, Fact{Kind: FCmp, Op: token.NEQ, X: s, Y: ssa.NewConst(constant.MakeString(""), s.Type())})
+			}
+		}
 		if op == token.EQL || op == token.NEQ {
 			other := ssa.Value(nil)
 			if isNilConst(x.Y) {
@@ -175,6 +184,26 @@ func EdgeFacts(cond ssa.Value, branch bool) []Fact {
 		out = append(out, Fact{Kind: FBool, V: cond, Call: c, Val: branch})
 	}
 	return out
+}
+
+func lenOfString(v ssa.Value) ssa.Value {
+	c, ok := v.(*ssa.Call)
+	if !ok || len(c.Call.Args) != 1 {
+		return nil
+	}
+	b, ok := c.Call.Value.(*ssa.Builtin)
+	if !ok || b.Name() != "len" {
+		return nil
+	}
+	if t, ok := c.Call.Args[0].Type().Underlying().(*types.Basic); ok && t.Info()&types.IsString != 0 {
+		return c.Call.Args[0]
+	}
+	return nil
+}
+
+func isZeroInt(v ssa.Value) bool {
+	k, ok := v.(*ssa.Const)
+	return ok && k.Value != nil && k.Value.Kind() == constant.Int && constant.Sign(k.Value) == 0
 }
 
 // ---------------------------------------------------------------- gates
@@ -1200,6 +1229,21 @@ func (c *Ctx) errMayBeNilWithout(v ssa.Value, at *ssa.BasicBlock, g Gate, depth 
 			}
 		}
 		return false
+	case *ssa.Parameter:
+		// an error handed to a helper examined on behalf of one call site is the
+		// value that site passed: a sentinel variable or a fresh error is not nil
+		if a, ok := prov.SubstValue(x); ok {
+			switch y := a.(type) {
+			case *ssa.Const:
+				return y.Value == nil
+			case *ssa.MakeInterface:
+				return false
+			case *ssa.UnOp:
+				if _, isGlobal := y.X.(*ssa.Global); isGlobal && y.Op == token.MUL {
+					return false
+				}
+			}
+		}
 	case *ssa.Call, *ssa.Extract:
 		call, _ := callOf(v)
 		if call == nil {
